@@ -120,7 +120,7 @@ func run(c *vf.Ctx) {
 		dir, tr := buildRepo(c, g, c.Rand("repo", i))
 		bases = append(bases, base{dir, tr})
 	}
-	nruns := c.N(60, 1500)
+	nruns := c.N(60, 480)
 	perBatch := 5
 	var cfgs []runCfg
 	for i := 0; i < nruns; i++ {
@@ -273,12 +273,12 @@ func run(c *vf.Ctx) {
 	})
 	c.Extra("race_report_keys", raceKeys)
 	c.Extra("git_invocations", gitx.Calls.Load())
-	c.Floor("runs completed", c.Counter("runs"), c.N(55, 1300))
-	c.Floor("reads verified against ground truth", c.Counter("reads_ok"), c.N(100000, 3000000))
+	c.Floor("runs completed", c.Counter("runs"), c.N(55, 430))
+	c.Floor("reads verified against ground truth", c.Counter("reads_ok"), c.N(80000, 600000))
 	c.Floor("pool capacities exercised", c.SeenCount("caps"), 4)
-	c.Floor("runs with an active writer instance", c.Counter("runs_with_writer"), c.N(20, 500))
-	c.Floor("objects published by a writer and then read by the reader instance", c.Counter("published_reads_ok"), c.N(400, 10000))
-	c.Floor("evictions observed in reader storages", c.Counter("pool_evictions"), c.N(600, 15000))
+	c.Floor("runs with an active writer instance", c.Counter("runs_with_writer"), c.N(20, 150))
+	c.Floor("objects published by a writer and then read by the reader instance", c.Counter("published_reads_ok"), c.N(400, 3000))
+	c.Floor("evictions observed in reader storages", c.Counter("pool_evictions"), c.N(600, 4500))
 	c.Assume("the race detector reports only races that the produced schedules exercise")
 	c.Assume("objects added by the writer are unreachable, so runs with a repacker do not check them; repack runs check the ground-truth (reachable) objects only")
 }
